@@ -196,6 +196,102 @@ def genVersion (vr : Version) (maxNameLength : Int) : Except Err CrdVersion :=
   | .absent => .error .nilValidation
   | .ok s => .ok (mkVersion vr s maxNameLength)
 
+/-- the statements of `genCrdVersion` (internal/xcrd/crd.go) that the definitions above mirror, one entry per
+statement with the model step that mirrors it (Props/C11: skeleton obligations against the list
+regenerated from the current tree) -/
+def skelGenCrdVersion : List String := [
+  "func genCrdVersion(vr v1.CompositeResourceDefinitionVersion, maxNameLength int64) (*extv1.CustomResourceDefinitionVersion, error)",  -- genVersion : Version → Int → Except Err CrdVersion
+  "crdv := extv1.CustomResourceDefinitionVersion{ Name: vr.Name, Served: vr.Served, Storage: vr.Referenceable, Deprecated: ptr.Deref(vr.Deprecated, false), DeprecationWarning: vr.DeprecationWarning, AdditionalPrinterColumns: vr.AdditionalPrinterColumns, Schema: &extv1.CustomResourceValidation{ OpenAPIV3Schema: BaseProps(), }, Subresources: &extv1.CustomResourceSubresources{ Status: &extv1.CustomResourceSubresourceStatus{}, }, }",  -- mkVersion: name, served, storage := vr.referenceable, deprecated := vr.deprecated.getD false, deprecationWarning, columns := vr.columns, schema from Xp.Gen.xcrdBaseProps (genSchema), statusSubresource := true
+  "s, err := parseSchema(vr.Schema)",  -- genVersion: match vr.schema (parseSchema: SchemaIn)
+  "if err != nil",  -- genVersion: | .bad
+  "return nil, errors.Wrapf(err, errParseValidation)",  -- genVersion: .error .parseSchema
+  "end",
+  "if s == nil",  -- genVersion: | .absent
+  "return nil, errors.New(errCustomResourceValidationNil)",  -- genVersion: .error .nilValidation
+  "end",
+  "crdv.Schema.OpenAPIV3Schema.Description = s.Description",  -- genSchema: description := s.description
+  "maxLength := maxNameLength",  -- nameMaxLength: | none => maxNameLength
+  "if old := s.Properties[\"metadata\"].Properties[\"name\"].MaxLength; old != nil && *old < maxLength",  -- nameMaxLength: | some old => if old < maxNameLength
+  "maxLength = *old",  -- nameMaxLength: then old
+  "end",
+  "xName := crdv.Schema.OpenAPIV3Schema.Properties[\"metadata\"].Properties[\"name\"]",  -- genMetadata: prop (prop base "metadata") "name"
+  "xName.MaxLength = ptr.To(maxLength)",  -- genMetadata: maxLength := some (nameMaxLength s maxNameLength)
+  "xName.Type = \"string\"",  -- genMetadata: type := "string"
+  "xMetaData := crdv.Schema.OpenAPIV3Schema.Properties[\"metadata\"]",  -- genMetadata: prop base "metadata"
+  "xMetaData.Properties = map[string]extv1.JSONSchemaProps{\"name\": xName}",  -- genMetadata: props := [("name", xName)]
+  "crdv.Schema.OpenAPIV3Schema.Properties[\"metadata\"] = xMetaData",  -- genSchema: setKey "metadata" (genMetadata …) base.props
+  "xSpec := s.Properties[\"spec\"]",  -- genSpec: xSpec := prop s "spec"
+  "cSpec := crdv.Schema.OpenAPIV3Schema.Properties[\"spec\"]",  -- genSpec: cSpec := prop base "spec"
+  "cSpec.Required = append(cSpec.Required, xSpec.Required...)",  -- genSpec: required := cSpec.required ++ xSpec.required
+  "cSpec.XPreserveUnknownFields = xSpec.XPreserveUnknownFields",  -- genSpec: preserveUnknown := xSpec.preserveUnknown
+  "cSpec.XValidations = append(cSpec.XValidations, xSpec.XValidations...)",  -- genSpec: xValidations := cSpec.xValidations ++ xSpec.xValidations
+  "cSpec.OneOf = append(cSpec.OneOf, xSpec.OneOf...)",  -- genSpec: oneOf := cSpec.oneOf ++ xSpec.oneOf
+  "cSpec.Description = xSpec.Description",  -- genSpec: description := xSpec.description
+  "for k, v := range xSpec.Properties",  -- genSpec: props := setAll cSpec.props xSpec.props
+  "cSpec.Properties[k] = v",  -- genSpec: setAll = fold of setKey
+  "end",
+  "crdv.Schema.OpenAPIV3Schema.Properties[\"spec\"] = cSpec",  -- genSchema: setKey "spec" (genSpec base s)
+  "xStatus := s.Properties[\"status\"]",  -- genStatus: xStatus := prop s "status"
+  "cStatus := crdv.Schema.OpenAPIV3Schema.Properties[\"status\"]",  -- genStatus: cStatus := prop base "status"
+  "cStatus.Required = xStatus.Required",  -- genStatus: required := xStatus.required
+  "cStatus.XValidations = xStatus.XValidations",  -- genStatus: xValidations := xStatus.xValidations
+  "cStatus.Description = xStatus.Description",  -- genStatus: description := xStatus.description
+  "cStatus.OneOf = xStatus.OneOf",  -- genStatus: oneOf := xStatus.oneOf
+  "for k, v := range xStatus.Properties",  -- genStatus: setAll cStatus.props xStatus.props (author's first)
+  "cStatus.Properties[k] = v",  -- genStatus: setAll = fold of setKey
+  "end",
+  "for k, v := range CompositeResourceStatusProps()",  -- genStatus: setAll (…) Xp.Gen.xcrdStatusProps (machinery LAST: machinery_intact_status)
+  "cStatus.Properties[k] = v",  -- genStatus: setAll = fold of setKey
+  "end",
+  "crdv.Schema.OpenAPIV3Schema.Properties[\"status\"] = cStatus",  -- genSchema: setKey "status" (genStatus base s)
+  "return &crdv, nil"]  -- genVersion: .ok (mkVersion vr s maxNameLength)
+
+
+/-- the statements of `parseSchema` (internal/xcrd/crd.go) that the definitions above mirror, one entry per
+statement with the model step that mirrors it (Props/C11: skeleton obligations against the list
+regenerated from the current tree) -/
+def skelParseSchema : List String := [
+  "func parseSchema(v *v1.CompositeResourceValidation) (*extv1.JSONSchemaProps, error)",  -- SchemaIn (the result of parseSchema is the model's input)
+  "if v == nil",  -- SchemaIn.absent
+  "return nil, nil",  -- SchemaIn.absent (genVersion turns it into .nilValidation)
+  "end",
+  "s := &extv1.JSONSchemaProps{}",  -- a fresh decode target per call: the model is per version (state carried over shows as a difference)
+  "if err := json.Unmarshal(v.OpenAPIV3Schema.Raw, s); err != nil",  -- not modelled: encoding/json into extv1.JSONSchemaProps (oracle: the harness hands the model the decoded schema)
+  "return nil, errors.Wrap(err, errParseValidation)",  -- SchemaIn.bad
+  "end",
+  "return s, nil"]  -- SchemaIn.ok s
+
+
+/-! ### what genCrdVersion READS of the author's schema
+
+Of the author's document only these fields are read: the top-level description; of the `spec`
+node required, x-kubernetes-preserve-unknown-fields, x-kubernetes-validations, oneOf, description
+and properties; of the `status` node required, x-kubernetes-validations, oneOf, description and
+properties; and `metadata.name.maxLength`. Everything else the author writes at those levels
+(type, default, enum, anyOf / allOf / not, additionalProperties, nullable, status
+preserve-unknown-fields, further top-level properties and keywords, ...) is dropped:
+`readSchema` is that projection and Props/C11 `author_read_exactly` states that the derivation
+cannot tell a schema from its projection. -/
+
+def readSpec (x : Schema) : Schema :=
+  { required := x.required, preserveUnknown := x.preserveUnknown, xValidations := x.xValidations,
+    oneOf := x.oneOf, description := x.description, props := x.props }
+
+def readStatus (x : Schema) : Schema :=
+  { required := x.required, xValidations := x.xValidations, oneOf := x.oneOf,
+    description := x.description, props := x.props }
+
+def readSchema (s : Schema) : Schema :=
+  { description := s.description,
+    props := [("spec", readSpec (prop s "spec")), ("status", readStatus (prop s "status")),
+              ("metadata", { props := [("name", { maxLength := (prop (prop s "metadata") "name").maxLength })] })] }
+
+def Version.read (v : Version) : Version :=
+  { v with schema := match v.schema with
+                     | .ok s => .ok (readSchema s)
+                     | .absent => .absent
+                     | .bad => .bad }
+
 /-! ### ForCompositeResource / ForCompositeResourceClaim -/
 
 /-- `cup.Default = &extv1.JSON{Raw: "\"<policy>\""}` when the XRD sets a default policy -/
@@ -241,6 +337,30 @@ def genVersions (vs : List Version) (maxNameLength : Int) (columns : List String
 /-- setCrdMetadata: XRD labels overlaid with spec.metadata.labels -/
 def crdLabels (xrd : Xrd) : List (String × String) := setAll xrd.labels xrd.metaLabels
 
+/-- the statements of `setCrdMetadata` (internal/xcrd/crd.go) that the definitions above mirror, one entry per
+statement with the model step that mirrors it (Props/C11: skeleton obligations against the list
+regenerated from the current tree) -/
+def skelSetCrdMetadata : List String := [
+  "func setCrdMetadata(crd *extv1.CustomResourceDefinition, xrd *v1.CompositeResourceDefinition) *extv1.CustomResourceDefinition",  -- crdLabels / Crd.annotations
+  "crd.SetLabels(xrd.GetLabels())",  -- crdLabels: setAll xrd.labels … (starts from the XRD's own labels)
+  "if xrd.Spec.Metadata != nil",  -- Xrd.metaLabels / metaAnnotations are [] without spec.metadata (driver: hasMeta)
+  "if xrd.Spec.Metadata.Labels != nil",  -- nil and empty spec.metadata.labels are not distinguished (setAll m [] = m)
+  "inheritedLabels := crd.GetLabels()",  -- crdLabels: the map set at 1
+  "if inheritedLabels == nil",  -- nil map = []
+  "inheritedLabels = map[string]string{}",  -- nil map = []
+  "end",
+  "for k, v := range xrd.Spec.Metadata.Labels",  -- crdLabels: setAll xrd.labels xrd.metaLabels (spec.metadata.labels win: labels_propagated)
+  "inheritedLabels[k] = v",  -- setAll = fold of setKey
+  "end",
+  "crd.SetLabels(inheritedLabels)",  -- forXR / forClaim: labels := crdLabels xrd
+  "end",
+  "if xrd.Spec.Metadata.Annotations != nil",  -- nil and empty are not distinguished
+  "crd.SetAnnotations(xrd.Spec.Metadata.Annotations)",  -- forXR / forClaim: annotations := xrd.metaAnnotations (the XRD's own annotations are not propagated)
+  "end",
+  "end",
+  "return crd"]  -- return value unused by the callers
+
+
 def controllerRef (xrd : Xrd) : OwnerRef :=
   { apiVersion := Xp.Gen.xrdApiVersion, kind := Xp.Gen.xrdKind, name := xrd.name, uid := xrd.uid,
     controller := true, blockOwnerDeletion := true }
@@ -259,6 +379,37 @@ def forXR (xrd : Xrd) : Except Err Crd :=
       versions := vs
       conversion := xrd.conversion }
 
+/-- the statements of `ForCompositeResource` (internal/xcrd/crd.go) that the definitions above mirror, one entry per
+statement with the model step that mirrors it (Props/C11: skeleton obligations against the list
+regenerated from the current tree) -/
+def skelForCompositeResource : List String := [
+  "func ForCompositeResource(xrd *v1.CompositeResourceDefinition) (*extv1.CustomResourceDefinition, error)",  -- forXR : Xrd → Except Err Crd
+  "crd := &extv1.CustomResourceDefinition{ Spec: extv1.CustomResourceDefinitionSpec{ Scope: extv1.ClusterScoped, Group: xrd.Spec.Group, Names: xrd.Spec.Names, Versions: make([]extv1.CustomResourceDefinitionVersion, len(xrd.Spec.Versions)), Conversion: xrd.Spec.Conversion, }, }",  -- forXR: scope := "Cluster", group, names := xrd.names, versions (one per XRD version: genVersions), conversion
+  "crd.SetName(xrd.GetName())",  -- forXR: name := xrd.name
+  "setCrdMetadata(crd, xrd)",  -- forXR: labels := crdLabels xrd, annotations := xrd.metaAnnotations (setCrdMetadata)
+  "crd.SetOwnerReferences([]metav1.OwnerReference{meta.AsController( meta.TypedReferenceTo(xrd, v1.CompositeResourceDefinitionGroupVersionKind), )})",  -- forXR: owners := [controllerRef xrd] (meta.AsController / TypedReferenceTo are crossplane-runtime: compared by correspondence)
+  "crd.Spec.Names.Categories = append(crd.Spec.Names.Categories, CategoryComposite)",  -- forXR: categories := xrd.names.categories ++ [categoryComposite]
+  "const maxCompositeNameLength = 63",  -- Xp.Gen.xcrdMaxNameLengthXR (probed by the dumper; obligation name_limit)
+  "for i, vr := range xrd.Spec.Versions",  -- genVersions: recursion over xrd.versions
+  "crdv, err := genCrdVersion(vr, maxCompositeNameLength)",  -- genVersions: genVersion vr maxNameLength
+  "if err != nil",  -- genVersions: | .error e => .error e (the first failing version aborts)
+  "return nil, errors.Wrapf(err, errFmtGenCrd, \"Composite Resource\", xrd.Name)",  -- Err (wrapping text not modelled; class compared)
+  "end",
+  "crdv.AdditionalPrinterColumns = append(crdv.AdditionalPrinterColumns, CompositeResourcePrinterColumns()...)",  -- decorate: columns := cv.columns ++ columns (author's first, machinery's last)
+  "props := CompositeResourceSpecProps()",  -- xrSpecMachinery: Xp.Gen.xcrdSpecPropsXR (a fresh table per version)
+  "if xrd.Spec.DefaultCompositionUpdatePolicy != nil",  -- withDefault: | some _
+  "cup := props[\"compositionUpdatePolicy\"]",  -- withDefault: (lookup key table).getD {}
+  "cup.Default = &extv1.JSON{Raw: []byte(fmt.Sprintf(\"\\\"%s\\\"\", *xrd.Spec.DefaultCompositionUpdatePolicy))}",  -- applyDefault: default := some ("\"" ++ p ++ "\"")
+  "props[\"compositionUpdatePolicy\"] = cup",  -- withDefault: setKey key … table
+  "end",
+  "for k, v := range props",  -- writeSpecProps: setAll spec.props mach (machinery written LAST: machinery_intact)
+  "crdv.Schema.OpenAPIV3Schema.Properties[\"spec\"].Properties[k] = v",  -- writeSpecProps: setKey "spec" { spec with props := … }
+  "end",
+  "crd.Spec.Versions[i] = *crdv",  -- genVersions: decorate cv columns mach :: cvs
+  "end",
+  "return crd, nil"]  -- forXR: .ok { … }
+
+
 def validateClaimNames (d : Xrd) : Except Err Names :=
   match d.claimNames with
   | none => .error .missingClaimNames
@@ -268,6 +419,29 @@ def validateClaimNames (d : Xrd) : Except Err Names :=
     else if c.singular ≠ "" ∧ c.singular = d.names.singular then .error (.conflictingClaimName c.singular)
     else if c.listKind ≠ "" ∧ c.listKind = d.names.listKind then .error (.conflictingClaimName c.listKind)
     else .ok c
+
+/-- the statements of `validateClaimNames` (internal/xcrd/crd.go) that the definitions above mirror, one entry per
+statement with the model step that mirrors it (Props/C11: skeleton obligations against the list
+regenerated from the current tree) -/
+def skelValidateClaimNames : List String := [
+  "func validateClaimNames(d *v1.CompositeResourceDefinition) error",  -- validateClaimNames : Xrd → Except Err Names
+  "if d.Spec.ClaimNames == nil",  -- | none
+  "return errors.New(errMissingClaimNames)",  -- .error .missingClaimNames
+  "end",
+  "if n := d.Spec.ClaimNames.Kind; n == d.Spec.Names.Kind",  -- if c.kind = d.names.kind
+  "return errors.Errorf(errFmtConflictingClaimName, n)",  -- .error (.conflictingClaimName c.kind)
+  "end",
+  "if n := d.Spec.ClaimNames.Plural; n == d.Spec.Names.Plural",  -- else if c.plural = d.names.plural
+  "return errors.Errorf(errFmtConflictingClaimName, n)",  -- .error (.conflictingClaimName c.plural)
+  "end",
+  "if n := d.Spec.ClaimNames.Singular; n != \"\" && n == d.Spec.Names.Singular",  -- else if c.singular ≠ "" ∧ c.singular = d.names.singular
+  "return errors.Errorf(errFmtConflictingClaimName, n)",  -- .error (.conflictingClaimName c.singular)
+  "end",
+  "if n := d.Spec.ClaimNames.ListKind; n != \"\" && n == d.Spec.Names.ListKind",  -- else if c.listKind ≠ "" ∧ c.listKind = d.names.listKind
+  "return errors.Errorf(errFmtConflictingClaimName, n)",  -- .error (.conflictingClaimName c.listKind)
+  "end",
+  "return nil"]  -- else .ok c
+
 
 def forClaim (xrd : Xrd) : Except Err Crd :=
   match validateClaimNames xrd with
@@ -285,6 +459,40 @@ def forClaim (xrd : Xrd) : Except Err Crd :=
         names := { c with categories := c.categories ++ [Xp.Gen.categoryClaim] }
         versions := vs
         conversion := xrd.conversion }
+
+/-- the statements of `ForCompositeResourceClaim` (internal/xcrd/crd.go) that the definitions above mirror, one entry per
+statement with the model step that mirrors it (Props/C11: skeleton obligations against the list
+regenerated from the current tree) -/
+def skelForCompositeResourceClaim : List String := [
+  "func ForCompositeResourceClaim(xrd *v1.CompositeResourceDefinition) (*extv1.CustomResourceDefinition, error)",  -- forClaim : Xrd → Except Err Crd
+  "if err := validateClaimNames(xrd); err != nil",  -- forClaim: match validateClaimNames xrd
+  "return nil, errors.Wrap(err, errInvalidClaimNames)",  -- forClaim: | .error e => .error e
+  "end",
+  "crd := &extv1.CustomResourceDefinition{ Spec: extv1.CustomResourceDefinitionSpec{ Scope: extv1.NamespaceScoped, Group: xrd.Spec.Group, Names: *xrd.Spec.ClaimNames, Versions: make([]extv1.CustomResourceDefinitionVersion, len(xrd.Spec.Versions)), Conversion: xrd.Spec.Conversion, }, }",  -- forClaim: scope := "Namespaced", group, names := c (the claim names), versions, conversion
+  "crd.SetName(xrd.Spec.ClaimNames.Plural + \".\" + xrd.Spec.Group)",  -- forClaim: name := c.plural ++ "." ++ xrd.group
+  "setCrdMetadata(crd, xrd)",  -- forClaim: labels := crdLabels xrd, annotations := xrd.metaAnnotations
+  "crd.SetOwnerReferences([]metav1.OwnerReference{meta.AsController( meta.TypedReferenceTo(xrd, v1.CompositeResourceDefinitionGroupVersionKind), )})",  -- forClaim: owners := [controllerRef xrd]
+  "crd.Spec.Names.Categories = append(crd.Spec.Names.Categories, CategoryClaim)",  -- forClaim: categories := c.categories ++ [categoryClaim]
+  "const maxClaimNameLength = 63",  -- Xp.Gen.xcrdMaxNameLengthClaim (probed; obligation name_limit)
+  "for i, vr := range xrd.Spec.Versions",  -- genVersions: recursion over xrd.versions
+  "crdv, err := genCrdVersion(vr, maxClaimNameLength)",  -- genVersions: genVersion vr maxNameLength
+  "if err != nil",  -- genVersions: | .error e => .error e
+  "return nil, errors.Wrapf(err, errFmtGenCrd, \"Composite Resource Claim\", xrd.Name)",  -- Err (wrapping text not modelled; class compared)
+  "end",
+  "crdv.AdditionalPrinterColumns = append(crdv.AdditionalPrinterColumns, CompositeResourceClaimPrinterColumns()...)",  -- decorate: columns := cv.columns ++ columns
+  "props := CompositeResourceClaimSpecProps()",  -- claimSpecMachinery: Xp.Gen.xcrdSpecPropsClaim
+  "if xrd.Spec.DefaultCompositeDeletePolicy != nil",  -- withDefault: | some _
+  "cdp := props[\"compositeDeletePolicy\"]",  -- withDefault: (lookup key table).getD {}
+  "cdp.Default = &extv1.JSON{Raw: []byte(fmt.Sprintf(\"\\\"%s\\\"\", *xrd.Spec.DefaultCompositeDeletePolicy))}",  -- applyDefault
+  "props[\"compositeDeletePolicy\"] = cdp",  -- withDefault: setKey key … table
+  "end",
+  "for k, v := range props",  -- writeSpecProps: setAll spec.props mach
+  "crdv.Schema.OpenAPIV3Schema.Properties[\"spec\"].Properties[k] = v",  -- writeSpecProps: setKey "spec" …
+  "end",
+  "crd.Spec.Versions[i] = *crdv",  -- genVersions: decorate cv columns mach :: cvs
+  "end",
+  "return crd, nil"]  -- forClaim: .ok { … }
+
 
 /-! ### Validate / ValidateUpdate (field paths of the errors, in order) -/
 
@@ -308,6 +516,51 @@ def validateUpdate (c old : Xrd) : List String :=
    | _, _ => []) ++
   validate c
 
+/-- the statements of `Validate / validateConversion / ValidateUpdate` (apis/apiextensions/v1/xrd_validation.go) that the definitions above mirror, one entry per
+statement with the model step that mirrors it (Props/C11: skeleton obligations against the list
+regenerated from the current tree) -/
+def skelValidate : List String := [
+  "func (c *CompositeResourceDefinition) Validate() (warns []string, errs field.ErrorList)",  -- validate : Xrd → List String (field paths of the errors; warnings are always nil)
+  "type validationFunc func() field.ErrorList",
+  "validations := []validationFunc{ c.validateConversion, }",  -- validate := validateConversion (the only entry)
+  "for _, f := range validations",
+  "errs = append(errs, f()...)",  -- validate
+  "end",
+  "return nil, errs"]  -- validate
+
+
+def skelValidateConversion : List String := [
+  "func (c *CompositeResourceDefinition) validateConversion() (errs field.ErrorList)",  -- validateConversion
+  "if conv := c.Spec.Conversion; conv != nil && conv.Strategy == extv1.WebhookConverter && (conv.Webhook == nil || conv.Webhook.ClientConfig == nil)",  -- | some conv => if conv.strategy = "Webhook" ∧ (conv.hasWebhook = false ∨ conv.hasClientConfig = false)
+  "errs = append(errs, field.Required(field.NewPath(\"spec\", \"conversion\", \"webhook\"), fmt.Sprintf(\"webhook configuration is required when conversion strategy is %q\", extv1.WebhookConverter)))",  -- ["spec.conversion.webhook"]
+  "end",
+  "return errs"]  -- else [] / | none => []
+
+
+def skelValidateUpdate : List String := [
+  "func (c *CompositeResourceDefinition) ValidateUpdate(old *CompositeResourceDefinition) (warns []string, errs field.ErrorList)",  -- validateUpdate (c old : Xrd) : List String
+  "if c.Spec.Group != old.Spec.Group",  -- if c.group ≠ old.group
+  "errs = append(errs, field.Invalid(field.NewPath(\"spec\", \"group\"), c.Spec.Group, \"field is immutable\"))",  -- ["spec.group"]
+  "end",
+  "if c.Spec.Names.Plural != old.Spec.Names.Plural",  -- if c.names.plural ≠ old.names.plural
+  "errs = append(errs, field.Invalid(field.NewPath(\"spec\", \"names\", \"plural\"), c.Spec.Names.Plural, \"field is immutable\"))",  -- ["spec.names.plural"]
+  "end",
+  "if c.Spec.Names.Kind != old.Spec.Names.Kind",  -- if c.names.kind ≠ old.names.kind
+  "errs = append(errs, field.Invalid(field.NewPath(\"spec\", \"names\", \"kind\"), c.Spec.Names.Kind, \"field is immutable\"))",  -- ["spec.names.kind"]
+  "end",
+  "if c.Spec.ClaimNames != nil && old.Spec.ClaimNames != nil",  -- | some cn, some on
+  "if c.Spec.ClaimNames.Plural != old.Spec.ClaimNames.Plural",  -- if cn.plural ≠ on.plural
+  "errs = append(errs, field.Invalid(field.NewPath(\"spec\", \"claimNames\", \"plural\"), c.Spec.ClaimNames.Plural, \"field is immutable\"))",  -- ["spec.claimNames.plural"]
+  "end",
+  "if c.Spec.ClaimNames.Kind != old.Spec.ClaimNames.Kind",  -- if cn.kind ≠ on.kind
+  "errs = append(errs, field.Invalid(field.NewPath(\"spec\", \"claimNames\", \"kind\"), c.Spec.ClaimNames.Kind, \"field is immutable\"))",  -- ["spec.claimNames.kind"]
+  "end",
+  "end",
+  "warns, newErr := c.Validate()",  -- ++ validate c
+  "errs = append(errs, newErr...)",  -- ++ validate c
+  "return warns, errs"]  -- the list of field paths
+
+
 /-! ### the webhook's decision (handler.go) -/
 
 inductive Admission where
@@ -328,6 +581,27 @@ def allCrds (xrd : Xrd) : Except (String × Err) (List (String × Crd)) :=
       match forClaim xrd with
       | .error e => .error ("claim", e)
       | .ok c => .ok [("xr", x), ("claim", c)]
+
+/-- the statements of `getAllCRDsForXRD` (internal/validation/apiextensions/v1/xrd/handler.go) that the definitions above mirror, one entry per
+statement with the model step that mirrors it (Props/C11: skeleton obligations against the list
+regenerated from the current tree) -/
+def skelGetAllCRDsForXRD : List String := [
+  "func getAllCRDsForXRD(in *v1.CompositeResourceDefinition) (out []*apiextv1.CustomResourceDefinition, err error)",  -- allCrds : Xrd → Except (String × Err) (List (String × Crd))
+  "crd, err := xcrd.ForCompositeResource(in)",  -- match forXR xrd
+  "if err != nil",  -- | .error e
+  "return out, xperrors.Wrap(err, \"cannot get CRD for Composite Resource\")",  -- .error ("xr", e)
+  "end",
+  "out = append(out, crd)",  -- ("xr", x) ::
+  "if in.Spec.ClaimNames == nil",  -- match xrd.claimNames | none
+  "return out, nil",  -- .ok [("xr", x)]
+  "end",
+  "crdClaim, err := xcrd.ForCompositeResourceClaim(in)",  -- match forClaim xrd
+  "if err != nil",  -- | .error e
+  "return out, xperrors.Wrap(err, \"cannot get Claim CRD for Composite Claim\")",  -- .error ("claim", e)
+  "end",
+  "out = append(out, crdClaim)",  -- [("xr", x), ("claim", c)]
+  "return out, nil"]  -- .ok …
+
 
 /-- the dry-run loop; `server` is the API server's verdict on a generated CRD (an input) -/
 def dryRun (server : Crd → Bool) : List (String × Crd) → Admission
@@ -428,6 +702,77 @@ def reconcileStep (w : Which) (xrd : Xrd) (stored : Option Crd) : Except Err Crd
     match stored with
     | none => .ok d
     | some s => .ok (serverUpdate s d)
+
+/-- xcrd.IsEstablished (crd.go): the FIRST status condition of type Established decides; `conds` are the
+(type, status) pairs of crd.Status.Conditions in order -/
+def isEstablished : List (String × String) → Bool
+  | [] => false
+  | (t, s) :: rest => if t = "Established" then s == "True" else isEstablished rest
+
+/-- the statements of `IsEstablished` (internal/xcrd/crd.go) that `isEstablished` mirrors -/
+def skelIsEstablished : List String := [
+  "func IsEstablished(s extv1.CustomResourceDefinitionStatus) bool",  -- isEstablished : List (String × String) → Bool
+  "for _, c := range s.Conditions",  -- recursion over the conditions, in order
+  "if c.Type == extv1.Established",  -- if t = "Established" (extv1.Established: obligation established_type)
+  "return c.Status == extv1.ConditionTrue",  -- then s == "True" (the first one decides)
+  "end",
+  "end",
+  "return false"]  -- | [] => false
+
+/-- what the definition / offered reconciler answers after it applied the CRD without error:
+`if !xcrd.IsEstablished(crd.Status) { return reconcile.Result{Requeue: true}, nil }`, else it goes on to
+start the controller and finishes. `conds` is the status of the CRD as the Apply returned it (an Update
+keeps the stored status, a Create starts with none). -/
+def reconcileResult (conds : List (String × String)) : String :=
+  if isEstablished conds then "ok" else "requeue"
+
+/-- the calls of `(*Reconciler).Reconcile` of internal/controller/apiextensions/definition (verbs of
+client.Client, Render, finalizers, engine), source order, and what `reconcileStep .xr` mirrors of them -/
+def skelDefinitionReconcile : List String := [
+  "client.Get",               -- not modelled: the XRD is the model's input (read once, live)
+  "composite.Render",         -- reconcileStep: derive .xr xrd (NewReconciler: CRDRenderFn(xcrd.ForCompositeResource), obligation renderer_*)
+  "client.Status.Update",     -- not modelled: deletion branch (C02 / C08)
+  "client.Get",               -- not modelled: deletion branch
+  "engine.Stop",              -- not modelled: deletion branch
+  "composite.RemoveFinalizer", -- not modelled: deletion branch
+  "client.DeleteAllOf",       -- not modelled: deletion branch
+  "client.List",              -- not modelled: deletion branch
+  "engine.Stop",              -- not modelled: deletion branch
+  "client.Delete",            -- not modelled: deletion branch
+  "composite.AddFinalizer",   -- not modelled: says nothing about the CRD (C02)
+  "client.Apply",             -- reconcileStep: stored = none => Create d | some s => serverUpdate s d (APIUpdatingApplicator of crossplane-runtime: Get, Create | Update; MustBeControllableBy belongs to C02)
+  "engine.Stop",              -- not modelled: controller engine (C02)
+  "engine.IsRunning",         -- not modelled
+  "client.Status.Update",     -- not modelled: XRD status
+  "engine.Start",             -- not modelled
+  "engine.StartWatches",      -- not modelled
+  "client.Status.Update"]     -- not modelled: XRD status
+
+/-- the same for internal/controller/apiextensions/offered and `reconcileStep .claim` -/
+def skelOfferedReconcile : List String := [
+  "client.Get",               -- not modelled: the XRD is the model's input
+  "claim.Render",             -- reconcileStep: derive .claim xrd (NewReconciler: CRDRenderFn(xcrd.ForCompositeResourceClaim))
+  "client.Status.Update",     -- not modelled: deletion branch (C02 / C08)
+  "client.Get",               -- not modelled: deletion branch
+  "engine.Stop",              -- not modelled: deletion branch
+  "claim.RemoveFinalizer",    -- not modelled: deletion branch
+  "client.List",              -- not modelled: deletion branch
+  "client.Delete",            -- not modelled: deletion branch (claims one by one)
+  "engine.Stop",              -- not modelled: deletion branch
+  "client.Delete",            -- not modelled: deletion branch (the CRD)
+  "claim.AddFinalizer",       -- not modelled
+  "client.Apply",             -- reconcileStep: Create d | serverUpdate s d
+  "engine.Stop",              -- not modelled
+  "engine.IsRunning",         -- not modelled
+  "client.Status.Update",     -- not modelled
+  "engine.Start",             -- not modelled
+  "engine.StartWatches",      -- not modelled
+  "client.Status.Update"]     -- not modelled
+
+/-- which derivation each reconciler is built with -/
+def rendererOf : Which → List String
+  | .xr => ["ForCompositeResource"]
+  | .claim => ["ForCompositeResourceClaim"]
 
 /-! ### example input used by the non-vacuity examples of Props/C11 -/
 
